@@ -580,6 +580,233 @@ def _operands(model, an, rep, sites=()):
     return n
 
 
+def _uninitialised(model, rep):
+    """R6: nothing a caller can see is read from uninitialised memory.
+    (a) Every np.empty buffer is covered *structurally*: all its stores use
+    integers, loop variables or slices in the positions that matter, or two
+    complementary index sets - a buffer whose stores go through
+    data-dependent index arrays (np.nonzero of a match) keeps whatever the
+    allocator left wherever nothing matches, and the 'result' then depends
+    on what ran before.  (b) The oriented facet sets the library itself
+    builds never designate the missing neighbour (-1) of an exterior facet:
+    Mesh.facets_around is interpreted on the incidence structures of two and
+    three cells for every subset of cells, flip on and off;
+    Mesh.facets_satisfying(normal=...) with every facet selected and the
+    adversarial sign of the normal test."""
+    from itertools import product
+    from .. import nlite
+    from ..nlite import NArr
+    from ..interp import Interp, Obj, PyFunc, Raised, Unsupported
+    R6 = "C15-R6"
+    # ---- (a)
+    nbuf = 0
+    for fn in model.all_functions():
+        if fn.path.startswith(R5_SKIP_PREFIX):
+            continue
+        loopvars = set()
+        for n in walk_no_nested(fn.node):
+            if isinstance(n, (ast.For, ast.comprehension)):
+                loopvars |= {x.id for x in ast.walk(n.target)
+                             if isinstance(x, ast.Name)}
+        assigns = {}
+        for n in walk_no_nested(fn.node):
+            if isinstance(n, ast.Assign) and len(n.targets) == 1:
+                t = n.targets[0]
+                key = src(t) if isinstance(t, (ast.Name, ast.Attribute)) \
+                    else None
+                if key:
+                    assigns.setdefault(key, []).append(n)
+        for key, defs in assigns.items():
+            emp = [d for d in defs if isinstance(d.value, ast.Call)
+                   and src(d.value.func) in ("np.empty", "numpy.empty")]
+            if not emp:
+                continue
+            shp = emp[0].value.args[0] if emp[0].value.args else None
+            if isinstance(shp, ast.Tuple) and any(
+                    isinstance(e, ast.Constant) and e.value == 0
+                    for e in shp.elts):
+                continue                     # empty array: nothing to cover
+            nbuf += 1
+            stores = [n for n in walk_no_nested(fn.node)
+                      if isinstance(n, (ast.Assign, ast.AugAssign))
+                      and isinstance((n.targets[0] if isinstance(
+                          n, ast.Assign) else n.target), ast.Subscript)
+                      and src((n.targets[0] if isinstance(n, ast.Assign)
+                               else n.target).value) == key]
+            dd = []          # data-dependent index names
+            for st in stores:
+                tgt = st.targets[0] if isinstance(st, ast.Assign) \
+                    else st.target
+                ix = tgt.slice
+                parts = ix.elts if isinstance(ix, ast.Tuple) else [ix]
+                for p_ in parts:
+                    if isinstance(p_, (ast.Slice, ast.Constant)):
+                        continue
+                    if isinstance(p_, ast.Name) and p_.id in loopvars:
+                        continue
+                    if isinstance(p_, ast.Name):
+                        dd.append((p_.id, st))
+                    elif not isinstance(p_, ast.UnaryOp):
+                        dd.append((src(p_), st))
+            cons = f"{fn.short()}:{key}:np.empty-covered"
+            names = {n_ for n_, _ in dd}
+            # complementary pair: one index set is np.setdiff1d(range, other)
+            compl = False
+            for a_ in names:
+                for d in assigns.get(a_, []):
+                    if isinstance(d.value, ast.Call) and src(
+                            d.value.func) in ("np.setdiff1d",
+                                              "numpy.setdiff1d") and any(
+                            isinstance(x, ast.Name) and x.id in names
+                            and x.id != a_ for x in ast.walk(d.value)):
+                        compl = True
+            if not dd or compl:
+                rep.ok(R6, cons, "every entry is written (integer / loop / "
+                       "slice indices" + (", complementary index sets)"
+                                          if compl else ")"),
+                       sample=False)
+            else:
+                nm, st = dd[0]
+                rep.fail(R6, fn.path, fn.short(), cons,
+                         f"'{src(emp[0])[:50]}' is filled through the "
+                         f"data-dependent index '{nm}' "
+                         f"('{src(st)[:50]}'): where nothing matches the "
+                         f"entries keep what the allocator left, and they "
+                         f"are read afterwards - the result depends on what "
+                         f"ran before (allocate with np.zeros / np.full, or "
+                         f"raise when something is left unmatched)",
+                         st.lineno)
+    if nbuf < 6:
+        raise AnalysisError(f"only {nbuf} np.empty buffers found")
+    # ---- (b) facets_around
+    mcls = model.cls("skfem.mesh.mesh", "Mesh")
+    fa = mcls.methods["facets_around"]
+
+    def structures():
+        S = range(3)
+        for a, b in product(S, S):
+            yield 2, [(0, a, 1, b)]
+        for a, b, c, d in product(S, S, S, S):
+            if b == c:
+                continue
+            yield 3, [(0, a, 1, b), (1, c, 2, d)]
+    cap = {}
+
+    def hook(interp, name, args, kwargs, node):
+        if name.endswith("OrientedBoundary"):
+            cap["ob"] = (args[0], args[1])
+            return ("OB", args[0], args[1])
+        return nlite.hook(interp, name, args, kwargs, node)
+    ncase, bad = 0, None
+    for ncell, shared in structures():
+        t2f = [[None] * ncell for _ in range(3)]
+        nf = 0
+        for (c1, s1, c2, s2) in shared:
+            t2f[s1][c1] = nf
+            t2f[s2][c2] = nf
+            nf += 1
+        for c in range(ncell):
+            for k in range(3):
+                if t2f[k][c] is None:
+                    t2f[k][c] = nf
+                    nf += 1
+        f2t = [[-1] * nf, [-1] * nf]
+        for c in range(ncell):
+            for k in range(3):
+                f = t2f[k][c]
+                f2t[0 if f2t[0][f] == -1 else 1][f] = c
+        for mask in range(1, 2 ** ncell):
+            els = [c for c in range(ncell) if mask >> c & 1]
+            for flip in (False, True):
+                ncase += 1
+                obj = Obj(mcls, {
+                    "t2f": NArr([list(r) for r in t2f]),
+                    "f2t": NArr([list(r) for r in f2t]),
+                    "normalize_elements": PyFunc(lambda a, k, n: a[0])})
+                try:
+                    r = Interp(model, call_hook=hook).call(
+                        fa, [NArr(els)], {"flip": flip}, self_obj=obj)
+                except Raised:
+                    continue          # refusing is fine
+                except Unsupported as e:
+                    raise AnalysisError(f"Mesh.facets_around outside "
+                                        f"grammar: {e}")
+                if not (isinstance(r, tuple) and r[0] == "OB"):
+                    raise AnalysisError("Mesh.facets_around: no "
+                                        "OrientedBoundary returned")
+                F, O = [int(x) for x in r[1].data], \
+                    [int(x) for x in r[2].data]
+                for f, o in zip(F, O):
+                    if o not in (0, 1) or f2t[o][f] == -1:
+                        bad = bad or (f"cells {els} of {ncell} "
+                                      f"(f2t = {f2t}), flip={flip}: facet "
+                                      f"{f} gets ori = {o}, but "
+                                      f"f2t[{o}, {f}] = -1")
+    if bad:
+        rep.fail(R6, fa.path, "Mesh.facets_around",
+                 "Mesh.facets_around:existing-cell",
+                 f"{bad}: the oriented set designates a cell that does not "
+                 f"exist; FacetBasis takes -1 for the last cell, and the "
+                 f"normals of that facet are read from an uninitialised "
+                 f"buffer", fa.lineno)
+    else:
+        rep.ok(R6, "Mesh.facets_around:existing-cell",
+               f"{ncase} (incidence structure, cell subset, flip) cases: "
+               f"every orientation designates an existing cell")
+    # ---- (b) facets_satisfying(normal=...)
+    fs = mcls.methods["facets_satisfying"]
+    f2t = [[0, 0, 0, 1, 1], [1, -1, -1, -1, -1]]
+
+    class PS:
+        skv_isarray = True
+
+        def skv_getitem(self, ix):
+            return self
+
+        def skv_getattr(self, name):
+            if name in ("mean", "T"):
+                return self if name == "T" else PyFunc(
+                    lambda a, k, n: self)
+            raise Unsupported("points." + name)
+
+    def hook2(interp, name, args, kwargs, node):
+        if name.endswith("OrientedBoundary"):
+            return ("OB", args[0], args[1])
+        if name == "numpy.dot":
+            return NArr([-1] * 5)       # every facet 'against' the normal
+        if name == "numpy.zeros" and isinstance(args[0], tuple):
+            return "X0"
+        return nlite.hook(interp, name, args, kwargs, node)
+    obj = Obj(mcls, {
+        "p": PS(), "facets": "FACETS", "f2t": NArr([list(r) for r in f2t]),
+        "t2f": "T2F", "dim": PyFunc(lambda a, k, n: 2),
+        "boundary_facets": PyFunc(lambda a, k, n: NArr([1, 2, 3, 4])),
+        "_mapping": PyFunc(lambda a, k, n: Obj(None, {
+            "normals": PyFunc(lambda a2, k2, n2: PS())}))})
+    test = PyFunc(lambda a, k, n: NArr([True] * 5))
+    try:
+        r = Interp(model, call_hook=hook2).call(
+            fs, [test], {"normal": "NORMAL"}, self_obj=obj)
+    except (Unsupported, Raised) as e:
+        raise AnalysisError(f"Mesh.facets_satisfying(normal=...): {e}")
+    if not (isinstance(r, tuple) and r[0] == "OB"):
+        raise AnalysisError("Mesh.facets_satisfying(normal=...): no "
+                            "OrientedBoundary returned")
+    F, O = [int(x) for x in r[1].data], [int(x) for x in r[2].data]
+    wrong = [(f, o) for f, o in zip(F, O) if f2t[o][f] == -1]
+    if wrong:
+        rep.fail(R6, fs.path, "Mesh.facets_satisfying",
+                 "Mesh.facets_satisfying[normal]:existing-cell",
+                 f"with the requested normal pointing into the domain the "
+                 f"exterior facets {[f for f, _ in wrong]} get ori = 1 "
+                 f"although they have no second cell (the reader of mesh "
+                 f"files sets ori[f2t[1] == -1] = 0 in the same situation)",
+                 fs.lineno)
+    else:
+        rep.ok(R6, "Mesh.facets_satisfying[normal]:existing-cell",
+               "exterior facets keep the only possible orientation")
+
+
 def run(model: Model, rep, tier: str) -> None:
     rep.rule("C15-R1", "every memoisation guard/key covers the content of "
              "all parameters the cached value depends on")
@@ -591,6 +818,10 @@ def run(model: Model, rep, tier: str) -> None:
              "process-global or class-level shared state")
     rep.rule("C15-R5", "no function stores into storage reachable from its "
              "parameters (documented outputs excepted, one symbol each)")
+    rep.rule("C15-R6", "no result is read from uninitialised memory: "
+             "np.empty buffers covered structurally; oriented facet sets "
+             "designate existing cells")
+    _uninitialised(model, rep)
     an = Analyzer(model)
     sites = _memo_rules(model, an, rep)
     _ctor_order(model, an, rep, sites)
@@ -610,6 +841,22 @@ _QP = "skfem/element/element_quad/element_quadp.py"
 _LP = "skfem/element/element_line/element_line_pp.py"
 _GUARD = "        if self._X.shape != X.shape or (self._X != X).any():"
 MUTANTS = [
+    ("affine normals gathered into an uninitialised buffer",
+     ("skfem/mapping/mapping_affine.py",
+      "        N = np.zeros((self.dim, len(find)))",
+      "        N = np.empty((self.dim, len(find)))"), "C15-R6"),
+    ("facets_around keeps the orientation towards the missing neighbour",
+     ("skfem/mesh/mesh.py",
+      "                   .astype(np.int32))\n        # an exterior facet "
+      "has one cell only: the only valid ori\n        ori[self.f2t[1, facets]"
+      " == -1] = 0\n",
+      "                   .astype(np.int32))\n"), "C15-R6"),
+    ("facets_satisfying keeps ori = 1 on exterior facets",
+     ("skfem/mesh/mesh.py",
+      "            ori = 1 * (np.dot(normal, normals) < 0)\n            # an "
+      "exterior facet has one cell only: the only valid ori\n            "
+      "ori[self.f2t[1, facets] == -1] = 0\n",
+      "            ori = 1 * (np.dot(normal, normals) < 0)\n"), "C15-R6"),
     ("Legendre tables of the quadrilateral kept unless all entries differ",
      (_QP, _GUARD,
       "        if self._X.shape != X.shape or (self._X != X).all():"),
@@ -733,9 +980,9 @@ MUTANTS = [
      (_U, "    Aout = A if overwrite else A.copy()\n\n    # set rows on lhs "
       "to zero", "    Aout = A\n\n    # set rows on lhs to zero"), "C15-R5"),
     ("penalize: right-hand side modified in place",
-     (_U, "    bout = b if overwrite else b.copy()\n    # Nothing needs "
-      "doing for mass matrix", "    bout = b\n    # Nothing needs doing for "
-      "mass matrix"), "C15-R5"),
+     (_U, "    bout = b if overwrite else b.astype(np.result_type(b, x))\n"
+      "    bout[D] = x[D] / epsilon", "    bout = b\n    bout[D] = x[D] / "
+      "epsilon"), "C15-R5"),
     ("mesh transformation writes into the operand's points",
      ("skfem/mesh/mesh.py", "    def remove_unused_nodes(self):\n",
       "    def _shifted(self, d):\n        p = self.doflocs\n        "
@@ -749,6 +996,12 @@ MUTANTS = [
       "Optional[ndarray]:\n"), "C15-R5"),
 ]
 TWINS = [
+    ("exterior facets re-oriented with np.where",
+     ("skfem/mesh/mesh.py",
+      "            ori[self.f2t[1, facets] == -1] = 0\n            return "
+      "OrientedBoundary(facets, ori)",
+      "            ori = np.where(self.f2t[1, facets] == -1, 0, ori)\n"
+      "            return OrientedBoundary(facets, ori)")),
     ("thread workers collect their failures in a list of the call",
      ("skfem/assembly/form/bilinear_form.py",
       "                    errors.append(e)",
